@@ -86,8 +86,10 @@ import (
 //@   props C08
 //@   modifies nothing
 //@   ensures len(tokens) == 0 ==> !result1
-//@   loop 1 invariant true
-//@   loop 2 invariant fresh(out)
+//@   ensures[pending-iff-some-var] result1 == exists(k, 0, len(tokens), HasVar(tokens[k]))
+//@   ensures[one-pending-entry-per-longhand] result1 ==> len(result0) == len(expandedNames) && forall(i, 0, len(result0), result0[i].name.KnownProp == expandedNames[i] && result0[i].name.Var == "" && result0[i].shortand == shortand)
+//@   loop 1 invariant forall(k, 0, rangeindex + 1, !HasVar(tokens[k])) && rangeindex < len(tokens)
+//@   loop 2 invariant fresh(out) && len(out) == len(expandedNames) && rangeindex < len(expandedNames) && forall(i, 0, rangeindex + 1, out[i].name.KnownProp == expandedNames[i] && out[i].name.Var == "" && out[i].shortand == shortand)
 
 // validators read their token lists (assumed, the dispatch goes through a table of ~200 validators)
 //@ func validateNonShorthand
@@ -108,6 +110,9 @@ import (
 //@   call validateNonShorthand#1 assert old(n) == 2 ==> arg2[0] == ite(rangeindex == 0 || rangeindex == 2, old(tokens[0]), old(tokens[1]))
 //@   call validateNonShorthand#1 assert old(n) == 3 ==> arg2[0] == ite(rangeindex == 0, old(tokens[0]), ite(rangeindex == 2, old(tokens[2]), old(tokens[1])))
 //@   call validateNonShorthand#1 assert old(n) == 4 ==> arg2[0] == ite(rangeindex == 0, old(tokens[0]), ite(rangeindex == 1, old(tokens[1]), ite(rangeindex == 2, old(tokens[2]), old(tokens[3]))))
+// a value containing var() stays pending with the tokens AS WRITTEN (var() is a token substitution: the
+// variable may itself hold several components), not with the value already spread over four sides
+//@   call findVar#1 assert[pending-keeps-the-tokens-as-written] len(arg1) == old(n) && forall(k, 0, len(arg1), arg1[k] == old(tokens[k]))
 //@   ensures[arity] old(n) == 0 ==> err != nil
 //@   loop 1 invariant rangeindex < 4 && forall(k, 0, len(tokens), tokens[k] == old(tokens[k]))
 //@   loop 2 invariant fresh(out) && rangeindex < 4 && len(tokens) == 4
